@@ -272,7 +272,7 @@ class Interp:
             return a.t == b.t
         if isinstance(a, VAny) or isinstance(b, VAny):
             x, o = (a, b) if isinstance(a, VAny) else (b, a)
-            if x.kindtag == 'regex':
+            if x.kindtag == 'regex' or (x.kindtag == 'nonpattern' and isinstance(o, (VClass, VStr))):
                 return False            # a compiled regular expression is no class, string or number
             if isinstance(o, VClass):
                 return self.any_eq(x, o)
